@@ -73,5 +73,26 @@ CHECKS["C19"] = (
     "__getstate__ keeps exactly the modelled entries, that reloaded arrays do not alias the original, device placement, and the "
     "content of uninitialised np.empty storage (compared by shape and dtype only).",
 )
+CHECKS["C09"] = (
+    "DESIGN.md §2 C09",
+    "Model REGENERATED from the source on every run: a Python-ast translator (harness/c09_translate.py) emits the call/effect graph of "
+    "every function, method, class and module body of rl_blox as coq/Gen/Graph.v (labels Pure/Seeded/WallClock/Ambient, callees "
+    "over-approximated by method name); Coq proofs that the fuel-bounded frontier closure computes exactly the inductive reachability "
+    "relation of any finite graph, that the boolean check ambient_free is sound and complete, and non-interference of a small effect "
+    "semantics with the ambient world; the per-run obligation ambient_free graph roots = true is decided by vm_compute; the translator's "
+    "table is validated by twin runs of all 24 training routines in fresh processes under different ambient conditions",
+    "PARTIAL. Proved (all seeds, all configurations): from no entry point (every train_*, every replay-buffer method, blox/multitask.py, "
+    "blox/mapb.py, blox/schedules.py) is a syntactically visible ambient source reachable - module-level numpy.random.*, unseeded "
+    "default_rng/Generator/RandomState/SeedSequence, stdlib random, time.* outside rl_blox/logging, datetime.now, os.urandom/getpid/"
+    "listdir/environ, uuid, secrets, id, hash, jax.random.key() without argument, iteration over a set of evidently non-numeric elements; "
+    "and for every code table respecting the graph two evaluations under different ambient worlds return equal results. Observed only "
+    "(twin runs, bitwise digests of parameters, buffers, counters, MemoryLogger records minus time; third run with another seed differs): "
+    "determinism of XLA/Gymnasium/MuJoCo and of dict/set iteration over keys whose type is invisible to the translator.",
+    "Label: partial (DESIGN.md). Trusted base beyond the Coq kernel: the translator harness/c09_translate.py, its ambient table and its "
+    "allowed-library list (jax, numpy minus numpy.random, flax, optax, chex, gymnasium, tensorflow_probability, orbax, scipy, tqdm, pickle, "
+    "copy, collections, functools, dataclasses, math, warnings, contextlib, typing, builtins, abc, atexit, pprint, matplotlib, aim, os.path, "
+    "os.makedirs) - unverified, fail-closed (unclassifiable constructs abort), validated by the twin runs; calls on parameters/locals are "
+    "Given (premise); vm_compute decides the per-run boolean (kernel-checked). No axioms.",
+)
 _PENDING = "check not built yet in this revision (planned: Coq model + correspondence, see DESIGN.md §2)"
 NOT_APPLICABLE = {f"C{i:02d}": _PENDING for i in range(1, 21) if f"C{i:02d}" not in CHECKS}
